@@ -247,6 +247,37 @@ def layout_mixed(spec):
     sx.reach("layout-mixed")
 
 
+def layout_reread(prior):
+    """The layout read from the configuration (here: from the dictionary) starts at bit 0 whatever the map held
+    before (prior add_variable calls, an earlier read): offsets are the running sum, the frame is ceil(total/8)."""
+    od = C.typed_od()
+    mp = od[0x1A00]
+    od[0x1800][1].default = 0x183
+    od[0x1800][2].default = 255
+    spec = [(C.TYPE_INDEX[0x01], 1), (C.TYPE_INDEX[0x06], 16), (C.TYPE_INDEX[0x02], 3), (C.TYPE_INDEX[0x07], 32)]
+    mp[0].default = len(spec)
+    for i, (idx, ln) in enumerate(spec, 1):
+        mp[i].default = (idx << 16) | ln
+    node = sx.mod("canopen.node.local").LocalNode(1, od)
+    net = sx.mod("canopen.network").Network()
+    net.send_message = lambda *a, **k: None
+    net.add_node(node)
+    m = node.tpdo[1]
+    for i in range(prior):
+        m.add_variable(C.TYPE_INDEX[0x05], 0, sx.fresh_int("p%d" % i, 1, 8))
+    for rnd in (1, 2):
+        m.read(from_od=True)
+        tag = "C05/layout-reread/%d" % rnd
+        sx.prove(len(m.map) == len(spec), "mapped objects", tag + "/count")
+        off = 0
+        for v, (idx, ln) in zip(m.map, spec):
+            sx.prove((v.index == idx) & (v.offset == off) & (v.length == ln), "offset is the running sum from bit 0",
+                     tag + "/offset")
+            off += ln
+        sx.prove(len(m.data) == (off + 7) // 8, "frame is ceil(total/8) bytes", tag + "/size")
+    sx.reach("layout-reread")
+
+
 def default_lengths():
     """An object mapped without a custom length occupies its own bit length."""
     node = _node()
@@ -285,6 +316,8 @@ def jobs(tier):
         out.append(dict(func="layout", params=dict(k=k), weight=k))
     out.append(dict(func="default_lengths", params={}))
     out.append(dict(func="layout_step", params={}, weight=4))
+    for prior in (0, 1, 3):
+        out.append(dict(func="layout_reread", params=dict(prior=prior)))
     concrete = [[8] * 8, [1, 2, 3, 4, 5, 6, 7, 8], [1, 1, 1, 1, 1, 1, 1, 8], [3, 5, 7, 2, 6, 8, 1]]
     if tier == "thorough":
         concrete += [[7, 1, 7, 1, 7, 1, 8, 8], [1] * 8, [2, 6, 8, 8, 8, 8, 8, 8], [5, 3, 6, 1, 7, 4, 2], [5, 5, 5, 5, 5, 5, 5, 5],
@@ -323,7 +356,7 @@ META = dict(
     assumptions=["offset/length attributes set directly on the PdoVariable for the field harness (the layout "
                  "harness proves add_variable computes them as the running sum)"],
     stubs=["struct", "bytes", "bytearray", "math.ceil on exact rationals", "logging -> null"],
-    required_reach=["read", "write", "layout", "own-length", "layout-step", "layout-concrete", "layout-mixed"],
+    required_reach=["read", "write", "layout", "own-length", "layout-step", "layout-concrete", "layout-mixed", "layout-reread"],
     limits=dict(quick=dict(query_timeout_ms=60000), thorough=dict(query_timeout_ms=300000, crosscheck_every=5, crosscheck_max=30)),
     validate_every=dict(quick=3, thorough=1),
 )
